@@ -26,12 +26,12 @@ require (
 replace verif/engine => $V/engine
 EOM
 cd "$S" && go build -trimpath -o bc . > build.log 2>&1 || { head -30 build.log; echo "ENGINE-ERROR: brokerconf build failed"; exit 2; }
-if [ "$TIER" = thorough ]; then D=4; R=4; else D=3; R=3; fi
+if [ "$TIER" = thorough ]; then D=3; R=4; X=400000; else D=2; R=3; X=15000; fi
 N=${VERIF_JOBS:-14}
-if [ $# -gt 2 ]; then ./bc -depth ${BROKERCONF_DEPTH:-$D} -reps $R "${@:3}"; exit $?; fi
+if [ $# -gt 2 ]; then ./bc -depth ${BROKERCONF_DEPTH:-$D} -reps $R -maxexecs $X "${@:3}"; exit $?; fi
 rc=0
 for i in $(seq 0 $((N-1))); do
-  ( GOMAXPROCS=2 ./bc -depth ${BROKERCONF_DEPTH:-$D} -reps $R -tier "$TIER" -shard $i -nshards $N -out "$S/rep_$i.json" > "$S/out_$i.txt" 2>&1; echo $? > "$S/rc_$i" ) &
+  ( GOMAXPROCS=2 ./bc -depth ${BROKERCONF_DEPTH:-$D} -reps $R -maxexecs $X -tier "$TIER" -shard $i -nshards $N -out "$S/rep_$i.json" > "$S/out_$i.txt" 2>&1; echo $? > "$S/rc_$i" ) &
 done
 wait
 python3 - "$S" "$N" "$OUT" <<'EOP'
